@@ -17,7 +17,6 @@ Everything random is drawn from the `random.Random` passed in.  Generated names:
 """
 import copy
 import os
-import random
 
 import yaml
 
